@@ -190,10 +190,28 @@ func (v *callVisitor) VisitStructLiteral(c *ast.StructLiteral) ast.VisitResult {
 	return ast.VisitRecurse
 }
 
+func (v *callVisitor) overload(tok token.Token, o *ast.OperatorOverload, op string) {
+	if o == nil || o.Decl == nil {
+		v.calls = append(v.calls, call{Kind: "builtin", Pos: [2]int{int(tok.Range.Start.Line), int(tok.Range.Start.Column)}, File: v.file, Name: op})
+		return
+	}
+	v.calls = append(v.calls, call{Kind: "overload", Pos: [2]int{int(tok.Range.Start.Line), int(tok.Range.Start.Column)}, File: v.file, Name: o.Decl.Name()})
+}
+func (v *callVisitor) VisitBinaryExpr(b *ast.BinaryExpr) ast.VisitResult {
+	v.overload(b.Tok, b.OverloadedBy, b.Operator.String())
+	return ast.VisitRecurse
+}
+func (v *callVisitor) VisitCastExpr(b *ast.CastExpr) ast.VisitResult {
+	v.overload(b.Lhs.Token(), b.OverloadedBy, "als")
+	return ast.VisitRecurse
+}
+
 // negated calls: UnaryExpr{UN_NOT, FuncCall} with identical range and token is how alias negation is encoded
 func (v *callVisitor) VisitUnaryExpr(u *ast.UnaryExpr) ast.VisitResult {
 	if fc, ok := u.Rhs.(*ast.FuncCall); ok && u.Operator == ast.UN_NOT && u.Range == fc.Range {
 		v.calls = append(v.calls, call{Kind: "not", Pos: [2]int{int(fc.Tok.Range.Start.Line), int(fc.Tok.Range.Start.Column)}, File: v.file, Name: fc.Name, Neg: true})
+	} else {
+		v.overload(u.Tok, u.OverloadedBy, u.Operator.String())
 	}
 	return ast.VisitRecurse
 }
